@@ -1,6 +1,7 @@
 import Chess.Lemmas.Reach
 import Chess.Lemmas.SearchF
 import Chess.Lemmas.CallShape
+import Chess.Lemmas.FnsEquiv.Move
 
 /-!
 # C08 — depth-limited and unlimited searches end cleanly whatever the table holds
@@ -99,3 +100,11 @@ end Chess.Props.C08
 #print axioms Chess.Props.C08.faithful_never_deeper_than_the_limit
 #print axioms Chess.Props.C08.every_killer_access_in_range
 #print axioms Chess.Props.C08.chess_every_table_access_in_range
+
+/-! ### Translation tie (C08.T)
+`tools/translate.py` regenerates `Chess/Gen/Fns.lean` from the Rust text of the leaf functions on every run (a
+parser, not patterns); the theorems below — proved in `Chess/Lemmas/FnsEquiv/*` and re-checked by the kernel whenever
+the generated term changes — say that the TRANSLATED code equals the hand-written model this file's theorems are
+about, for the index of the history table (`Move::index_history`). A rewrite of the Rust text that keeps the meaning leaves them true; one that changes it breaks the
+theorem named after the function. -/
+#print axioms Chess.FnsEquiv.Move_index_history_eq
